@@ -102,8 +102,8 @@ func dissectUnmarshal(info *types.Info, mc *msgCode) *unmarshalShape {
 	}
 	extByNum := map[int64]*protogen.Extension{}
 	if mc.unit.GenFile != nil {
-		for _, m := range allGenMessagesWithMaps(mc.unit.GenFile) {
-			for _, e := range m.Extensions {
+		for _, exts := range extensionGroups(mc.unit.GenFile) {
+			for _, e := range exts {
 				if e.Extendee != nil && e.Extendee.GoIdent == mc.desc.GoIdent {
 					extByNum[int64(e.Desc.Number())] = e
 				}
